@@ -22,6 +22,9 @@
 (***************************************************************************)
 EXTENDS MBCore
 
+CONSTANT Stringified   \* tokens standing for the TEXT form of a value that was submitted as a JSON
+                       \* number / boolean (only the trace harness produces them; {} in the model)
+
 G0 == [gc      |-> [c \in Conns |-> Conn0],
        added   |-> <<>>,      \* accepted adds of live mailboxes [app,mbox,side,phase,body,id]
        seen    |-> {},        \* [app,mbox,side]: sides subscribed to / sent messages of
@@ -636,8 +639,16 @@ Holds(p, g, o, g2) ==
     [] p = "C17.g" -> C17g(g, o, g2)
     [] p = "C18.a" -> C18a(g, o, g2)
 
+\* F10: phase / body / id of a message are TEXT columns: a value submitted as a JSON
+\*      number or boolean is delivered live as submitted but replayed by `open` as a string
+F10sig(g, o) ==
+  /\ CmdIs(o, "open")
+  /\ \E k \in DOMAIN o.out : o.out[k].type = "message"
+                              /\ {o.out[k].phase, o.out[k].body, o.out[k].id} \cap Stringified # {}
+
 \* which known-finding signatures the step matches
 Sigs(g, o) == (IF F2sig(g, o) THEN {"F2"} ELSE {}) \cup (IF F6sig(g, o) THEN {"F6"} ELSE {})
+              \cup (IF F10sig(g, o) THEN {"F10"} ELSE {})
 
 \* the clauses of each listed property ("C05" without the keep-access clause,
 \* which is known finding F6 and is checked separately)
